@@ -873,7 +873,7 @@ class FieldValueMimeType(FieldValueComponentBase):
 
 @attr.s
 class FieldValueSingleBase(FieldValueBase, Serializable):
-    value = attr.ib()
+    value = attr.ib(converter=convert_naive_datetime_to_utc)
 
     @classmethod
     @abc.abstractmethod
